@@ -144,11 +144,11 @@ structure Trace (wb : Workbook) (doc : Node) (f : Fields) (lists : List (Str × 
   hform : formOut f.name (lists.map (·.1)) rows [] = .ok o
   hpar : dparse drows = .ok ditems
   hmeta : metaKids rows [] = [iidQ]
-  hbinds : bindsOkL f.name (topNames ditems) [f.name] (dWithMeta f.name rows ditems) = true
+  hbinds : bindsOkL (elsOf f.name (dWithMeta f.name rows ditems)) [(f.name, .group)] (dWithMeta f.name rows ditems) = true
   hctl : ctlOkL ditems = true
   hdoc : doc = assemble f none (instNodes (defaultsOfL [f.name] ditems) [f.name] (ntKids o.inst))
     ((Choices.staticInsts [] lists).map Choices.instNode ++
-      bindNodesL f.name (topNames ditems) [f.name] (dWithMeta f.name rows ditems))
+      bindNodesL (elsOf f.name (dWithMeta f.name rows ditems)) [(f.name, .group)] (dWithMeta f.name rows ditems))
     (bodyNodesL [f.name] ditems)
   hvalid : validDoc [] doc = true
 
@@ -192,10 +192,10 @@ theorem convertDoc_trace (wb : Workbook) (doc : Node) (h : convertDoc wb = .ok d
                         · rename_i ditems hdi
                           split at h
                           · simp at h
-                          · rename_i hn
+                          · rename_i hm
                             split at h
                             · simp at h
-                            · rename_i hm
+                            · rename_i hs
                               split at h
                               · simp at h
                               · rename_i hb
@@ -258,29 +258,29 @@ theorem isDom_choiceInst (i : Choices.Inst) : isDom (Choices.instNode i) = true 
     refine isDom_elem (by simp [attrKeysNodup]) (isDomKids_single (isDom_elem (by decide) (isDomKids_map _ _ fun it => ?_)))
     exact isDom_elem (by decide) (isDomKids_map _ _ fun kv => isDom_elem (by decide) (isDomKids_single (isDom_text _ _)))
 
-theorem isDom_bindNode (root : Str) (tops : List Str) (path : List Str) (q : Binds.Q) :
-    isDom (bindNode root tops path q) = true := isDom_pyNode _ _ _ isDomKids_nil
+theorem isDom_bindNode (els : List Refs.Chain) (ctx : Refs.Chain) (q : Binds.Q) :
+    isDom (bindNode els ctx q) = true := isDom_pyNode _ _ _ isDomKids_nil
 
 mutual
-theorem isDom_bindNodes (root : Str) (tops : List Str) : ∀ (pre : List Str) (d : DItem),
-    isDomKids (bindNodes root tops pre d) = true
-  | pre, .q d p => by
+theorem isDom_bindNodes (els : List Refs.Chain) : ∀ (pc : Refs.Chain) (d : DItem),
+    isDomKids (bindNodes els pc d) = true
+  | pc, .q d p => by
     unfold bindNodes
     split
     · exact isDomKids_single (isDom_bindNode ..)
     · exact isDomKids_nil
-  | pre, .sec ct n b p ks => by
+  | pc, .sec ct n b p ks => by
     unfold bindNodes
-    rw [isDomKids_append, isDom_bindNodesL root tops (pre ++ [n]) ks, Bool.and_true]
+    rw [isDomKids_append, isDom_bindNodesL els (pc ++ [(n, kindOf ct)]) ks, Bool.and_true]
     split
     · exact isDomKids_single (isDom_bindNode ..)
     · exact isDomKids_nil
-theorem isDom_bindNodesL (root : Str) (tops : List Str) : ∀ (pre : List Str) (ds : List DItem),
-    isDomKids (bindNodesL root tops pre ds) = true
+theorem isDom_bindNodesL (els : List Refs.Chain) : ∀ (pc : Refs.Chain) (ds : List DItem),
+    isDomKids (bindNodesL els pc ds) = true
   | _, [] => by unfold bindNodesL; exact isDomKids_nil
-  | pre, k :: ks => by
+  | pc, k :: ks => by
     unfold bindNodesL
-    rw [isDomKids_append, isDom_bindNodes root tops pre k, isDom_bindNodesL root tops pre ks]; rfl
+    rw [isDomKids_append, isDom_bindNodes els pc k, isDom_bindNodesL els pc ks]; rfl
 end
 
 theorem isDom_labelNode (r : Cells) : isDom (labelNode r) = true := by
@@ -355,7 +355,7 @@ end
 theorem trace_partsDom {wb doc f lists rows drows o ditems} (_T : Trace wb doc f lists rows drows o ditems) :
     PartsDom none (instNodes (defaultsOfL [f.name] ditems) [f.name] (ntKids o.inst))
       ((Choices.staticInsts [] lists).map Choices.instNode ++
-        bindNodesL f.name (topNames ditems) [f.name] (dWithMeta f.name rows ditems))
+        bindNodesL (elsOf f.name (dWithMeta f.name rows ditems)) [(f.name, .group)] (dWithMeta f.name rows ditems))
       (bodyNodesL [f.name] ditems) :=
   ⟨fun ks h => (by cases h), isDom_instNodes _ _ _,
    (by rw [isDomKids_append, isDomKids_map _ _ isDom_choiceInst, isDom_bindNodesL]; rfl),
@@ -708,8 +708,8 @@ theorem ctlRefsL_append (a b : List Node) : ctlRefsL (a ++ b) = ctlRefsL a ++ ct
   | nil => simp [ctlRefsL]
   | cons x xs ih => simp [ctlRefsL, ih]
 
-theorem bindAttrs_clean {root : Str} {tops : List Str} {path : List Str} {q : Binds.Q} {a : List (Str × Str)}
-    (h : bindAttrs root tops path q = some a) : a.all (fun kv => attrLocal kv.1 != l!"nodeset") = true := by
+theorem bindAttrs_clean {els : List Refs.Chain} {ctx : Refs.Chain} {q : Binds.Q} {a : List (Str × Str)}
+    (h : bindAttrs els ctx q = some a) : a.all (fun kv => attrLocal kv.1 != l!"nodeset") = true := by
   unfold bindAttrs at h
   split at h
   · split at h
@@ -717,8 +717,8 @@ theorem bindAttrs_clean {root : Str} {tops : List Str} {path : List Str} {q : Bi
     · simp at h
   · simp at h
 
-theorem bindRef_bindNode (root : Str) (tops : List Str) (path : List Str) (q : Binds.Q)
-    (h : (bindAttrs root tops path q).isSome = true) : bindRef (bindNode root tops path q) = some (xpathStr path) := by
+theorem bindRef_bindNode (els : List Refs.Chain) (ctx : Refs.Chain) (q : Binds.Q)
+    (h : (bindAttrs els ctx q).isSome = true) : bindRef (bindNode els ctx q) = some (xpathStr ctx.path) := by
   obtain ⟨a, ha⟩ := Option.isSome_iff_exists.mp h
   have hc := bindAttrs_clean ha
   simp only [bindNode, pyNode, bindRef, if_true, ha, Option.getD_some]
@@ -726,35 +726,38 @@ theorem bindRef_bindNode (root : Str) (tops : List Str) (path : List Str) (q : B
   have e : attrLocal (l!"nodeset") = l!"nodeset" := by decide
   rw [e]; exact hc
 
+theorem path_snoc (pc : Refs.Chain) (n : Str) (k : Refs.Kind) : Refs.Chain.path (pc ++ [(n, k)]) = pc.path ++ [n] := by
+  simp [Refs.Chain.path]
+
 mutual
-theorem bindNodes_refs (root : Str) (tops : List Str) : ∀ (pre : List Str) (d : DItem),
-    bindsOk root tops pre d = true →
-    (bindNodes root tops pre d).filterMap bindRef = (bindPaths pre (Convert.erase d)).map xpathStr
-  | pre, .q d p, h => by
+theorem bindNodes_refs (els : List Refs.Chain) : ∀ (pc : Refs.Chain) (d : DItem),
+    bindsOk els pc d = true →
+    (bindNodes els pc d).filterMap bindRef = (bindPaths pc.path (Convert.erase d)).map xpathStr
+  | pc, .q d p, h => by
     simp only [bindsOk, Bool.or_eq_true, Bool.not_eq_true'] at h
     simp only [bindNodes, Convert.erase, bindPaths]
     cases hb : d.bind with
     | false => simp
     | true =>
       have h' := h.resolve_left (by simp [hb])
-      simp [List.filterMap, bindRef_bindNode root tops _ _ h']
-  | pre, .sec ct n b p ks, h => by
+      simp [List.filterMap, bindRef_bindNode els _ _ h', path_snoc]
+  | pc, .sec ct n b p ks, h => by
     simp only [bindsOk, Bool.and_eq_true, Bool.or_eq_true, Bool.not_eq_true'] at h
     simp only [bindNodes, Convert.erase, bindPaths, List.filterMap_append, List.map_append,
-      bindNodesL_refs root tops (pre ++ [n]) ks h.2]
+      bindNodesL_refs els (pc ++ [(n, kindOf ct)]) ks h.2, path_snoc]
     cases hb : b with
     | false => simp
     | true =>
       have h' := h.1.resolve_left (by simp [hb])
-      simp [List.filterMap, bindRef_bindNode root tops _ _ h']
-theorem bindNodesL_refs (root : Str) (tops : List Str) : ∀ (pre : List Str) (ds : List DItem),
-    bindsOkL root tops pre ds = true →
-    (bindNodesL root tops pre ds).filterMap bindRef = (bindPathsL pre (Convert.eraseL ds)).map xpathStr
+      simp [List.filterMap, bindRef_bindNode els _ _ h', path_snoc]
+theorem bindNodesL_refs (els : List Refs.Chain) : ∀ (pc : Refs.Chain) (ds : List DItem),
+    bindsOkL els pc ds = true →
+    (bindNodesL els pc ds).filterMap bindRef = (bindPathsL pc.path (Convert.eraseL ds)).map xpathStr
   | _, [], _ => by simp [bindNodesL, Convert.eraseL, bindPathsL]
-  | pre, k :: ks, h => by
+  | pc, k :: ks, h => by
     simp only [bindsOkL, Bool.and_eq_true] at h
     simp only [bindNodesL, Convert.eraseL, bindPathsL, List.filterMap_append, List.map_append,
-      bindNodes_refs root tops pre k h.1, bindNodesL_refs root tops pre ks h.2]
+      bindNodes_refs els pc k h.1, bindNodesL_refs els pc ks h.2]
 end
 
 theorem ctlRefs_nonctl (t : Str) (a : List (Str × Str)) (ks : List Node) (h : controlTags.contains t = false) :
@@ -952,7 +955,7 @@ theorem bindRefs_doc {wb doc f lists rows drows o ditems} (T : Trace wb doc f li
   rw [bindRefs, T.hdoc, modelKidsOf_assemble]
   unfold Asm.modelKids
   simp only [itextPart, List.append_nil, List.filterMap_append, List.filterMap_cons, hsub, hinst,
-    List.nil_append, bindRef_choiceInst, bindNodesL_refs _ _ _ _ T.hbinds, erase_dWithMeta, hi, hb]
+    List.nil_append, bindRef_choiceInst, bindNodesL_refs _ _ _ T.hbinds, erase_dWithMeta, hi, hb, Refs.Chain.path, List.map]
 
 theorem ctlRefs_doc {wb doc f lists rows drows o ditems} (T : Trace wb doc f lists rows drows o ditems) :
     ctlRefsL (bodyKidsOf doc) = o.body.map xpathStr := by
